@@ -26,7 +26,8 @@ META = {
              'upper-case extensions, TIFF, words) with the lexicographic-o'
              'rder oracle, symbolic links, directory names whose given ord'
              'er is not sorted, default options requested by omitting the '
-             'argument.'),
+             'argument.'
+             " Round 12: slices_to_raw_chunks with explicit lists, two conversions from the same list objects."),
     "exhaustive_parts": ["all 48 orientation codes (each with its own "
                          "Hypothesis run)"],
     "trusted_base": ["vlib/refs/orient_ref.py (from the letters only)",
